@@ -21,7 +21,7 @@ func C05(r *core.Report) {
 		"R5 bucket storage independence - every slice put into the prefix table is freshly made or grown by append on itself (two buckets never share a backing array); R6 orientation - the writer sorts buckets ascending before laying them out and the reader's descent goes right exactly when the probed element is smaller than the target. " +
 		"R7 lookup re-entrancy - Reader.Has and what it reaches in the package neither assign fields of the shared Reader nor hand storage of the Reader to a read/copy as a buffer (concurrent getTransaction requests probe one Reader). " +
 		"R8 every path through Writer.Put (both formats) appends the hash to its bucket: no conditional skip. " +
-		"R9 the de-duplication of a bucket compares neighbours of the sorted list; no comparison uses a remembered value that starts at a constant (a genuine hash equal to it would be dropped). Not decided: dedupe/sort/eytzinger/search correctness, membership for concrete multisets."
+		"R9 the de-duplication of a bucket compares neighbours of the sorted list; no comparison uses a remembered value that starts at a constant (a genuine hash equal to it would be dropped). R10 if the reader uses an in-band offset value to mean 'no bucket for this prefix', it is a value the writer can never assign (not the first offset, out of reach of any file size). Not decided: dedupe/sort/eytzinger/search correctness, membership for concrete multisets."
 	for _, pk := range []string{"bucketteer", "deprecated/bucketteer"} {
 		c05HashAndPrefix(r, pk)
 		c05Sizes(r, pk)
@@ -42,6 +42,8 @@ func C05(r *core.Report) {
 	r.Floor("C05.R7", 4)
 	c05PutAlwaysStores(r)
 	c05DedupHasNoSentinel(r)
+	c05EmptyBucketSentinelAgrees(r)
+	r.Floor("C05.R10", 2)
 	r.Floor("C05.R9", 1)
 	r.Floor("C05.R8", 2)
 }
